@@ -47,14 +47,19 @@ vars == <<held, cfg, kind, st, k, op, h, g, fired>>
 \* executed on the loop thread from inside the callback (only events of the same loop are touched)
 ProgOp == [o : {"enable", "disable", "destroy"}, a : Events]
 EvRec == [used : BOOLEAN, L : Loops, sigs : SUBSET Sigs, os : BOOLEAN, prog : Seq(ProgOp)]
-IsFunc(x) == x \in {"info", "plain"}
+\* kinds of the pre-existing disposition: info = SA_SIGINFO handler, plain = handler, ign, dfl; inforh / plainrh = the same
+\* handlers installed with SA_RESETHAND (+ SA_NODEFER, SA_ONSTACK / SA_RESTART and other masks): delivered directly by the
+\* kernel they would fall back to SIG_DFL after one delivery, so - like dfl - they are never raised while nobody is subscribed
+IsFunc(x) == x \in {"info", "plain", "inforh", "plainrh"}
+NoRaise(x) == x \in {"dfl", "inforh", "plainrh"}
 
 OrigOf(kd, S) == [h |-> kd[S], f |-> "f0", m |-> "m0"]            \* sentinel: distinctive flags and mask
 Orig(S)  == OrigOf(kind, S)
 TboxDisp == [h |-> "tbox", f |-> "siginfo", m |-> "empty"]
 ZeroDisp == [h |-> "zero", f |-> "zero", m |-> "zero"]
 NoCtx    == [pipes |-> {}, old |-> ZeroDisp]
-NoOp     == [t |-> "none", e |-> 0, todo |-> {}]
+NoLate   == [s |-> 0, old |-> ZeroDisp]
+NoOp     == [t |-> "none", e |-> 0, todo |-> {}, late |-> NoLate]
 Idle     == [pc |-> "idle", s |-> 0, todo |-> {}, last |-> 0]
 Min(X)   == CHOOSE x \in X : \A y \in X : x <= y
 
@@ -187,7 +192,7 @@ OpBegin(e, t) ==
   /\ CASE t = "enable"  -> st[e] = "off" \/ (Redundant /\ st[e] = "on")
        [] t = "disable" -> st[e] = "on" \/ (Redundant /\ st[e] = "off")
        [] t = "destroy" -> st[e] \in {"off", "on"}
-  /\ op' = [op EXCEPT ![cfg[e].L] = [t |-> t, e |-> e,
+  /\ op' = [op EXCEPT ![cfg[e].L] = [t |-> t, e |-> e, late |-> NoLate,
                                       todo |-> IF t = "enable" \/ st[e] = "on" THEN cfg[e].sigs ELSE {}]]   \* disable(): only if is_enabled_
   /\ g' = ClearG
   /\ UNCHANGED <<held, cfg, kind, st, k, h, fired>>
@@ -195,15 +200,27 @@ EnableBegin(e)  == OpBegin(e, "enable")
 DisableBegin(e) == OpBegin(e, "disable")
 DestroyBegin(e) == OpBegin(e, "destroy")
 
+\* Seeded defect "laterestore": the last unsubscriber erases the table entry inside the critical section but puts the old
+\* disposition back only after leaving it (LateRestore): a first subscriber of another loop can slip in between.
 OpStep(L) ==            \* one subscribeSignal / unsubscribeSignal
-  /\ op[L].t # "none" /\ op[L].todo # {}
-  /\ LET S == Min(op[L].todo) IN
-       /\ k' = IF op[L].t = "enable" THEN Sub(k, L, S, op[L].e) ELSE Unsub(k, L, S, op[L].e)
-       /\ op' = [op EXCEPT ![L].todo = @ \ {S}]
+  /\ op[L].t # "none" /\ op[L].todo # {} /\ op[L].late.s = 0
+  /\ LET S == Min(op[L].todo)
+         k1 == IF op[L].t = "enable" THEN Sub(k, L, S, op[L].e) ELSE Unsub(k, L, S, op[L].e)
+         restores == op[L].t # "enable" /\ k.ctx[S].pipes = {L} /\ k1.ctx[S].pipes = {}
+     IN IF Bug = "laterestore" /\ restores
+        THEN /\ k' = [k1 EXCEPT !.disp[S] = k.disp[S]]
+             /\ op' = [op EXCEPT ![L].todo = @ \ {S}, ![L].late = [s |-> S, old |-> k.ctx[S].old]]
+        ELSE /\ k' = k1
+             /\ op' = [op EXCEPT ![L].todo = @ \ {S}]
+  /\ UNCHANGED <<held, cfg, kind, st, h, g, fired>>
+LateRestore(L) ==
+  /\ op[L].late.s # 0
+  /\ k' = [k EXCEPT !.disp[op[L].late.s] = op[L].late.old]
+  /\ op' = [op EXCEPT ![L].late = NoLate]
   /\ UNCHANGED <<held, cfg, kind, st, h, g, fired>>
 
 OpEnd(L) ==
-  /\ op[L].t # "none" /\ op[L].todo = {}
+  /\ op[L].t # "none" /\ op[L].todo = {} /\ op[L].late.s = 0
   /\ LET e == op[L].e IN
        /\ st' = [st EXCEPT ![e] = CASE op[L].t = "enable" -> "on" [] op[L].t = "disable" -> "off" [] OTHER -> "absent"]
        /\ fired' = IF op[L].t = "enable" /\ st[e] = "off" THEN [fired EXCEPT ![e] = 0] ELSE fired
@@ -213,7 +230,7 @@ OpEnd(L) ==
 (* ---- a delivery of S ---- *)
 RaiseBegin(S) ==
   /\ Quiescent /\ NoOps /\ RaiseOK
-  /\ k.disp[S].h # "dfl"                          \* the default action would end the process: not raised
+  /\ ~NoRaise(k.disp[S].h)                        \* the default action would end the process / the kernel would reset it: not raised
   /\ IF k.disp[S].h = "tbox"
      THEN /\ h' = [pc |-> "old", s |-> S, todo |-> {}, last |-> 0]
           /\ g' = [sig |-> S, want |-> OnFor(S), got |-> [e \in Events |-> 0], sent |-> 0, raises |-> Bump, bad |-> g.bad, exc |-> {}]
@@ -261,7 +278,7 @@ LoopRead(L) ==          \* the loop thread reads one number from its pipe and di
 
 Next ==
   \/ \E e \in Events : Create(e) \/ EnableBegin(e) \/ DisableBegin(e) \/ DestroyBegin(e)
-  \/ \E L \in Loops : OpStep(L) \/ OpEnd(L) \/ HandlerWrite(L) \/ LoopRead(L)
+  \/ \E L \in Loops : OpStep(L) \/ OpEnd(L) \/ HandlerWrite(L) \/ LoopRead(L) \/ LateRestore(L)
   \/ \E S \in Sigs : RaiseBegin(S)
   \/ HandlerOld
   \/ HandlerReturn
@@ -289,7 +306,7 @@ SDestroy(e) ==
   /\ UNCHANGED <<held, cfg, kind, op, h, fired>>
 SCreate(e) == Create(e)
 SRaise(S) ==            \* the delivery up to the return of the handler
-  /\ Quiescent /\ NoOps /\ RaiseOK /\ k.disp[S].h # "dfl"
+  /\ Quiescent /\ NoOps /\ RaiseOK /\ ~NoRaise(k.disp[S].h)
   /\ IF k.disp[S].h = "tbox"
      THEN /\ k' = WriteAll(k, S, Snapshot(k.ctx[S].pipes))
           /\ g' = [sig |-> S, want |-> OnFor(S), got |-> [e \in Events |-> 0], sent |-> OldCalls(S), raises |-> Bump,
@@ -305,6 +322,16 @@ SBatch(L, ops) ==
   /\ LET r == RunOps(R0(k, st), L, ops) IN
        /\ k' = r.k /\ st' = r.st
        /\ fired' = [e \in Events |-> IF e \in r.en THEN 0 ELSE fired[e]]
+  /\ g' = ClearG
+  /\ UNCHANGED <<held, cfg, kind, op, h>>
+\* two loops make one subscription call each AT THE SAME TIME (their threads are released together from a barrier).  The
+\* critical sections are serialised by _signal_lock_; the resulting state does not depend on the order.
+SRace(La, opa, Lb, opb) ==
+  /\ La \in Loops \ held /\ Lb \in Loops \ held /\ La # Lb /\ NoOps /\ Quiescent
+  /\ LET r1 == RunOps(R0(k, st), La, <<opa>>)
+         r2 == RunOps(R0(r1.k, r1.st), Lb, <<opb>>)
+     IN /\ k' = r2.k /\ st' = r2.st
+        /\ fired' = [e \in Events |-> IF e \in r1.en \cup r2.en THEN 0 ELSE fired[e]]
   /\ g' = ClearG
   /\ UNCHANGED <<held, cfg, kind, op, h>>
 \* the thread of loop L is kept busy inside a task: deliveries raised meanwhile queue up in its pipe and are read as a batch
@@ -328,7 +355,7 @@ SSpec == Init /\ [][SNext]_vars
 TypeOK ==
   /\ cfg \in Configs
   /\ st \in [Events -> {"none", "absent", "off", "on"}]
-  /\ \A L \in Loops : op[L].t \in {"none", "enable", "disable", "destroy"} /\ op[L].todo \subseteq Sigs
+  /\ \A L \in Loops : op[L].t \in {"none", "enable", "disable", "destroy"} /\ op[L].todo \subseteq Sigs /\ op[L].late.s \in Sigs \cup {0}
   /\ h.pc \in {"idle", "old", "write"}
   /\ \A L \in Loops : \A i \in DOMAIN k.pipe[L] : k.pipe[L][i] \in Sigs
 
@@ -350,7 +377,7 @@ OneShotAtMostOnce == \A e \in Events : (Used(e) /\ cfg[e].os) => fired[e] <= 1
 
 \* the disposition is the saved one, field by field, exactly when nobody is subscribed
 DispositionRestored ==
-  \A S \in Sigs :
+  \A S \in Sigs : (\E L \in Loops : op[L].late.s = S) \/        \* (only with the seeded defect "laterestore": restore still to come)
     /\ (\A L \in Loops : k.subs[L][S] = {}) <=> (k.disp[S] = Orig(S))
     /\ (k.disp[S] # Orig(S)) => (k.disp[S] = TboxDisp)
 \* ... in the words of the statement (between calls)
